@@ -420,7 +420,12 @@ impl ExprGen {
             17 => {
                 let inner = self.nodeset(rng, d);
                 let n = 1 + rng.below(2);
-                Expr::filter(inner, vec![], self.steps(rng, d, n))
+                // (E)/step and (E)//step
+                let mut steps = self.steps(rng, d, n);
+                if rng.pct(50) {
+                    steps.insert(0, Step::dslash());
+                }
+                Expr::filter(inner, vec![], steps)
             }
             18 => {
                 // a/b//c
